@@ -13,7 +13,7 @@ OP_OWNER = {
     "equals": ["C09"], "rebuild": ["C09"], "congruence": ["C09"],
     "tocsv": ["C09", "C13"], "csvroundtrip": ["C13"],
     "tojson": ["C09", "C14"], "jsonroundtrip": ["C14"], "string": ["C09"],
-    "wfault": ["C15"],
+    "wfault": ["C15"], "rfault": ["C15"],
     "wf": ["C10"], "callbacks": ["C10"],
     "sortadv": ["C03"], "conc": ["C11"], "grpadv": ["C04", "C05"],
     "ryu": ["C16"], "ryudec": ["C16"],
@@ -41,7 +41,7 @@ PROPS = {
             "sections": [dict(hist("hist", ["apply", "copy", "rownums", "eval", "sort"], quick=250), cover_ops=None)],
             "rule": "every step of every generated history re-observes all earlier family members (digest of the full observation); "
                     "evaluations = observations compared; non-trivial = successful operation on a result with >= 2 rows; distinct by (operation, result)"},
-    "C02": {"lean": ["QF.Props.C02", "QF.Props.C02Spec"], "extra_ns": ["QF.Props.C02Spec"],
+    "C02": {"lean": ["QF.Props.C02", "QF.Props.C02Spec", "QF.Props.C02Mirror"], "extra_ns": ["QF.Props.C02Spec", "QF.Props.C02Mirror"],
             "sections": [hist("hist", ["filter"]),
                          {"section": "hist", "tag": "hist-filter", "opt": "ops=filter+filter+filter+filter+sort+slice+distinct", "quick": 400, "thorough": 4000, "cover_ops": {"filter"}}]},
     "C03": {"lean": ["QF.Props.C03", "QF.Props.C03Spec"],
@@ -60,7 +60,7 @@ PROPS = {
                          {"section": "hist", "tag": "hist-new", "opt": "newonly=1", "quick": 150, "thorough": 1500, "cover_ops": {"new"}}]},
     "C09": {"lean": ["QF.Props.C09", "QF.Props.C09Equals", "QF.Props.C06"], "extra_ns": ["QF.Props.C06"],
             "sections": [dict(hist("hist", ["equals", "rebuild", "rebuild", "sort", "permute", "filter", "slice", "string", "tocsv", "tojson", "apply", "rownums", "copy"], quick=250), cover_ops=None)]},
-    "C11": {"lean": ["QF.Props.C11"],
+    "C11": {"lean": ["QF.Props.C11", "QF.Props.C01Ops"], "extra_ns": ["H", "QF.Props.C01"],
             "sections": [{"section": "conc", "race": True, "quick": 150, "thorough": 2000, "cover_ops": {"CC"}}],
             "rule": "cases = batches of 6..12 operations (Filter incl. like/ilike, Sort, Distinct, GroupBy/Aggregate, Apply, FilteredApply, Eval with one shared context, Select/Slice/Copy, ToCSV/ToJSON/String, Equals) "
                     "started together on one frame family, each batch three times, in a binary built with the race detector; every result is compared with the result of the same operation run alone",
@@ -81,7 +81,7 @@ PROPS = {
             "sections": [dict(hist("hist", ["tocsv", "tocsv", "sort", "filter", "apply"], quick=250), cover_ops={"tocsv"})],
             "rule": "cases = ToCSV of a derived frame with random Header/Columns options; the bytes are parsed with the spec's RFC 4180 scanner and must denote the frame cell by cell "
                     "(floats: the text must parse back to the identical bits by exact arithmetic), then ReadCSV of those bytes with the types declared must give the expected frame (both EmptyNull settings)"},
-    "C14": {"lean": ["QF.Props.C14", "QF.Props.C14Quote", "QF.Props.C16"], "extra_ns": ["QF.Props.C16"],
+    "C14": {"lean": ["QF.Props.C14", "QF.Props.C14Quote", "QF.Props.C14ToJson", "QF.Props.C16"], "extra_ns": ["QF.Props.C14ToJson", "QF.Props.C16"],
             "sections": [dict(hist("hist", ["tojson", "tojson", "sort", "filter", "apply"], quick=250), cover_ops={"tojson"}),
                          {"section": "quote", "quick": 300, "thorough": 5000, "cover_ops": {"QS"}}],
             "rule": "cases = ToJSON of a derived frame; the bytes are parsed with the spec's RFC 8259 parser (validity) and every record must denote its row (ints exactly, floats parsing back to identical bits, "
@@ -93,22 +93,22 @@ PROPS = {
                          dict({"section": "csvread", "tag": "csvread-enum", "quick": 200, "thorough": 2000, "cover_ops": {"CV"}}, owns=lambda m: m["op"] == "csvread")],
             "rule": "cases = operations on frames with declared and derived enum columns (cardinalities 1,2,63..65,127..129,191..193,254..257,300; declared orders different from the alphabet) "
                     "through New, ReadCSV and ReadJSON; every mismatch in such a history counts for this property"},
-    "C19": {"lean": ["QF.Props.C19"],
+    "C19": {"lean": ["QF.Props.C19", "QF.Props.C19Sql"], "extra_ns": ["QF.Props.C19Sql"],
             "sections": [dict(hist("hist", ["tosql", "tosql", "sort", "filter", "apply"], quick=200), tag="hist-tosql", cover_ops=None, owns=lambda m: m["op"] == "tosql"),
                          {"section": "sqlread", "quick": 1500, "thorough": 15000, "cover_ops": {"SR"}}],
             "rule": "cases = ToSQL of derived frames against a recording database/sql driver (every statement text and argument list compared with the spec for all dialect options) and "
                     "ReadSQL of scripted result sets (types, NULL placement, coercions, precision); distinct by transcript line"},
-    "C18": {"lean": ["QF.Props.C18"],
+    "C18": {"lean": ["QF.Props.C18", "QF.Props.C18Like"], "extra_ns": ["QF.Props.C18Like"],
             "sections": [{"section": "like", "quick": 1500, "thorough": 20000, "cover_ops": {"M", "ME"}}],
             "rule": "cases = (pattern, case flag, cells) run through the real NewMatcher/Matches/ToUpper and through Filter on a string column and an enum column with the same cells; "
                     "compared with the documented rule and the ToUpper mirror; unicode.ToUpper and regexp matching are oracle annotations from the Go standard library"},
-    "C15": {"lean": ["QF.Props.C15", "QF.Props.C12"], "extra_ns": ["QF.Props.C12"],
-            "sections": [dict(hist("hist", ["wfault"], quick=60, thorough=400), tag="hist-wfault", cover_ops=None, owns=lambda m: m["op"] == "wfault"),
+    "C15": {"lean": ["QF.Props.C15", "QF.Props.C15Faults", "QF.Props.C12"], "extra_ns": ["QF.Props.C15Faults", "QF.Props.C12"],
+            "sections": [dict(hist("hist", ["wfault"], quick=60, thorough=400), tag="hist-wfault", cover_ops=None, owns=lambda m: m["op"] in ("wfault", "rfault")),
                          dict(hist("hist", ["tosql", "tosql", "sort"], quick=60, thorough=400), tag="hist-sqlfault", opt="sqlfaults=1," + mix("tosql", "tosql", "sort"), cover_ops=None, owns=lambda m: m["op"] == "sqlfault"),
                          {"section": "sqlread", "tag": "sqlreadfaults", "opt": "faults=1", "quick": 300, "thorough": 3000, "cover_ops": {"SR"}},
                          {"section": "csvraw", "tag": "csvrawfaults", "opt": "faults=1", "quick": 60, "thorough": 600, "cover_ops": {"C"}},
                          {"section": "csvread", "tag": "csvreadfaults", "opt": "faults=1", "quick": 400, "thorough": 4000, "cover_ops": {"CV"}}],
-            "rule": "cases = (document, schedule, failing call number); csvraw enumerates EVERY call number of the chosen schedule per document; distinct by transcript line"},
+            "rule": "cases = (document, schedule, failing call number); csvraw enumerates every call number of the chosen schedule per document (schedules of more than 160 calls: the first 64, the last 32 and 64 drawn ones); distinct by transcript line"},
     "C10": {"lean": ["QF.Props.C10", "QF.Props.C10Sticky", "QF.Props.C06", "QF.Props.C06Apply", "QF.Props.C08Project"], "extra_ns": ["QF.Props.C10Sticky", "QF.Props.C06", "QF.Props.C08"], "sections": [dict(hist("hist", []), cover_ops=None)]},
 }
 
@@ -147,7 +147,7 @@ LEVEL_TEXT = {
                "PARTIAL: the claim for all 2^64 floats rests on Ryu's precision lemma, which is not proved here; the digit-generation core is validated by differential runs only (labelled as tests)."),
     "C12": _lt("read_schedule_independent / any_two_schedules_agree: the mirror of the whole fastcsv reader returns the same rows, fields and error for every read schedule (lock-step simulation against the fully loaded buffer); qscan_content: an escaped field is read back as its content. The real reader and ReadCSV are compared exactly with the L0 mirror and with the RFC 4180 scanner / ReadCSV spec on generated documents, schedules and configurations.",
                "Lean 4 proof (simulation: any schedule = loaded buffer) + differential correspondence",
-               "strconv parsing is a parameter (oracle computed by the harness from the standard library). Two recorded findings (CR inside quotes, trailing empty field at EOF) are excluded by name."),
+               "strconv parsing is a parameter (oracle computed by the harness from the standard library). The proof model Core/CsvFull (subject of the schedule-independence and read-back theorems) is executed on every document of up to 2500 bytes as well."),
     "C15": _lt("Fault enumeration against the reader model: for every call number at which the underlying reader fails, the model decides whether that call is reached; if it is, the fastcsv reader must end in failure and ReadCSV must return Err (never an error-free partial frame). Writers: for every byte offset at which the io.Writer starts failing, success may only be reported if everything was accepted. SQL: a failing Exec or a failing row fetch must surface as an error.",
                "Lean 4 model of the reader with fault positions (theorems shared with C12) + exhaustive fault-position correspondence",
                "Covered: CSV reader faults at every call, ToCSV/ToJSON writer faults at every byte offset, ToSQL failing statement, ReadSQL failing row. ReadJSON reader faults are an open goal."),
